@@ -708,6 +708,16 @@ def gen_forged_case(rng):
         if lnv > HALF:
             ops.append("init b0 4")
             ops.append(rng.choice(["write_to_capacity b0 c0", "append b0 c0", "append_dynamic b0 c0"]) if lnv >= MAX - 1 else "append b0 c0")
+    elif r < 0.55:
+        # a small but inconsistent header (len > capacity, or a capacity without storage semantics): every function that
+        # validates its argument (AWS_ERROR_PRECONDITION(aws_byte_buf_is_valid)) must refuse before touching memory
+        cap = rng.choice([1, 4, 8])
+        ops.append(f"buf_forge b0 16 {cap + rng.choice([1, 2, 8])} {cap} {rng.randint(0, 1)}")
+        ops.append("buf_is_valid b0")
+        for _ in range(rng.randint(1, 4)):
+            ops.append(rng.choice(["init_copy b1 b0", "reserve b0 12", "reserve b0 32", "reserve_relative b0 1", "reserve_relative b0 0",
+                                   "reserve_smart b0 3", "buf_is_valid b0"]))
+        ops.append("clean_up b0")
     elif r < 0.8:
         # buffer header with forged len/cap: write family must refuse
         ln, cap = rng.choice([("HALF+1", "MAX"), ("MAX-1", "MAX"), ("MAX", "MAX"), ("HALF+1", "HALF+1"), ("HALF", "HALF"), ("MAX-1", "MAX-1")])
@@ -868,7 +878,7 @@ def _split_ops(case, lines):
                 g.append(lines[i]); i += 1
             groups.append(g)
             continue
-        while i < n and lines[i].startswith("P release"):
+        while i < n and lines[i].startswith(("P release", "P MONITOR")):
             g.append(lines[i]); i += 1
         if i < n and (lines[i].startswith(("P r ", "P skip", "P FAULT")) or lines[i] == "bad-op"):
             g.append(lines[i]); i += 1
@@ -1101,10 +1111,10 @@ def oracle(case, lines):
             if src is not None and (res == "pred 1") != (not any(src)):
                 errs.append(f"{op}: {res} for bytes {src.hex()}")
         # commit what the implementation printed
-        if name in ("cur_bytes", "cur_from_string") and after_c:
+        if name in ("cur_bytes", "cur_from_string") and int(t[1][1:]) in after_c:
             s = int(t[1][1:])
             st.ext[after_c[s]["rid"]] = unhex(t[2])
-        if name == "cur_from_c_str" and after_c:
+        if name == "cur_from_c_str" and int(t[1][1:]) in after_c:
             s = int(t[1][1:])
             st.ext[after_c[s]["rid"]] = unhex(t[2]).split(b"\0")[0]
         if name == "buf_from_array" and after_b:
